@@ -38,6 +38,20 @@ func switchedType(p *an.Path, operand string) (string, []string) {
 	sel := ""
 	var rejected []string
 	for _, a := range p.Atoms {
+		if operand == "" {
+			// any operand: "<x>.(*fix.T)#1"
+			i := strings.Index(a.L, ".(*fix.")
+			if i < 0 || !strings.HasSuffix(a.L, ")#1") || strings.ContainsAny(a.L[:i], " (") {
+				continue
+			}
+			t := strings.TrimSuffix(a.L[i+len(".(*fix."):], ")#1")
+			if a.Rel == "true" {
+				sel = t
+			} else {
+				rejected = append(rejected, t)
+			}
+			continue
+		}
 		if !strings.HasPrefix(a.L, operand+".(*fix.") || !strings.HasSuffix(a.L, ")#1") {
 			continue
 		}
@@ -65,6 +79,12 @@ func runC02(c *core.Ctx, o Options) {
 	c.Explanation += " R4 also requires that nothing stores into the slice of pieces between the split and the per-entry decode (an entry shortened or replaced on the way silently loses the fields behind the cut)."
 	c.Explanation += " R1 also covers Set of every value type (a Set that keeps the source text of an earlier parse re-emits the old value)."
 	c.Explanation += " R4 converse: the declared count of a group takes part in no comparison other than with the number of pieces found (and the loop bound)."
+	// R9 (premises): what was parsed stays what it is — the parser keeps slices of its input, so the serializer never reuses the image
+	// it handed out; value constructors hand out fresh objects
+	checkImageFresh(c, "R9")
+	checkFreshConstructors(c, "R9")
+	checkKeyValuePlain(c, "R9")
+	c.Explanation += " R9 premises: fresh wire image per Prepare (= C05.K9); fresh objects from the constructors; KeyValue.FromBytes passes the bytes through and no KeyValue gets a nil value."
 	c.RuleMin = map[string]int{"R1": 28, "R2": 1, "R3": 5, "R4": 2, "R5": 2, "R6": 1, "R7": 3, "R8": 8}
 	c.MinObl = 30
 }
@@ -663,6 +683,30 @@ func checkValueExtraction(c *core.Ctx, rule string) {
 		}
 	}
 	c.Check(okAbsent, rule, "state.scanKeyValue", "an absent field is not an error", sk.Pos(), "return nil", "a template field that is not in the message makes parsing fail")
+	// … and only an absent field is skipped: a path that has located the field (it has cut the value out of the data) hands it to
+	// FromBytes — a present field whose value is empty, or looks odd, is the value type's to judge (an Int cannot be parsed from
+	// nothing: the message is not well-formed), not something to treat as absent
+	if fb != nil {
+		skipped := ""
+		for _, p := range paths {
+			if p.Return == nil || p.Passes(fb) || len(p.Results) != 1 || p.Results[0] != "nil" {
+				continue
+			}
+			located := false
+			for _, in := range p.InstrSeq() {
+				if sl, ok := in.(*ssa.Slice); ok && sl.Low == nil && sl.High != nil {
+					if inner, ok2 := an.ResolveOnPath(sl.X, p).(*ssa.Slice); ok2 && inner.Low != nil && an.RenderOnPath(inner.X, p) == "data" {
+						located = true
+					}
+				}
+			}
+			if located {
+				skipped = p.CondString()
+			}
+		}
+		c.Check(skipped == "", rule, "state.scanKeyValue", "a located field is always handed to FromBytes", sk.Pos(), "no return between cutting the value and FromBytes",
+			"scanKeyValue returns nil after it has located the field, without FromBytes, under ["+skipped+"]: a present but empty (or otherwise filtered) value is treated as if the field were absent — a damaged message decodes as well-formed")
+	}
 }
 
 // checkTemplateRebuild: Group.AsTemplate and Component.AsTemplate rebuild every item as an empty copy of the same kind — a KeyValue
@@ -1019,7 +1063,7 @@ func checkTypedTemplates(c *core.Ctx, rule string) {
 	at := c.Func("fix", "KeyValue.AsTemplate")
 	impls := valueImpls(c)
 	if c.Anchor("typed templates", at != nil && len(impls) >= 7, fmt.Sprintf("KeyValue.AsTemplate; %d Value implementations", len(impls)), posOf(at)) {
-		paths, _ := an.EnumPaths(at, 512)
+		paths, _ := an.EnumPathsX(at, 2048) // the type switch may live in a helper that picks the empty value
 		covered := map[string]string{}
 		var bad []string
 		for _, p := range paths {
@@ -1027,6 +1071,9 @@ func checkTypedTemplates(c *core.Ctx, rule string) {
 				continue
 			}
 			sel, rejected := switchedType(p, "kv.Value")
+			if sel == "" && len(rejected) == 0 {
+				sel, rejected = switchedType(p, "") // the switch on a helper's parameter
+			}
 			call, ok := p.ResVals[0].(*ssa.Call)
 			if !ok || !an.CalleeIs(&call.Call, "fix", "NewKeyValue") {
 				bad = append(bad, "a case does not return NewKeyValue(kv.Key, <empty value>)")
